@@ -7,6 +7,7 @@ for every locally written block; the theorems below carry the head-set invariant
 -/
 import DefraModel.Proofs.CrdtHeads
 import DefraModel.Proofs.CrdtHeadsHistory
+import DefraModel.Proofs.CrdtHeadsExact
 namespace Defra.Props.C04
 open Defra Defra.Crdt
 
@@ -47,6 +48,22 @@ theorem heads_are_childless_merged_init (par : Nat → Nat → Prop) :
 theorem heads_are_exactly_the_childless_merged_commits (bs : List Block) (hc : Causal bs) (x : Nat) :
     (foldHeads bs).Nodup ∧ (x ∈ foldHeads bs ↔ (x ∈ bs.map (·.id) ∧ ∀ b ∈ bs, x ∉ b.parents)) :=
   ⟨(foldHeads_exact bs hc).1, (foldHeads_exact bs hc).2 x⟩
+
+/-- **The same for `mergeDoc`, every kind of head set, every history of deliveries.** A replica starts empty and is
+    delivered any stored commits in any order, any number of times. Then for the composite head set and for every
+    field's head set of every document: a block is reported as latest exactly when it is merged (a head or an ancestor
+    of a head of that kind) and no merged block of that kind names it as parent. For every store passing `wfCheck3`
+    (evaluated by `drv crdt` on the stores of the run). -/
+theorem latest_are_the_childless_merged_after_every_history (cx : Ctx) (hwf : wfCheck3 cx.blocks = true)
+    (hknown : ∀ l, (cx.blocks.get? l).isSome = true → cx.known l = true) (d : String) (cs : List Block)
+    (h : ∀ c ∈ cs, cx.blocks.get? c.id = some c ∧ c.kind = .comp) (k : Kind) (x : Nat) :
+    x ∈ headsOf ((cs.foldl (mergeDoc cx) {}).doc d) k ↔
+      (Reach cx.blocks (headsOf ((cs.foldl (mergeDoc cx) {}).doc d) k) x ∧
+        ∀ y yb, Reach cx.blocks (headsOf ((cs.foldl (mergeDoc cx) {}).doc d) k) y → cx.blocks.get? y = some yb →
+          x ∉ yb.parents) :=
+  heads_exact cx.blocks _
+    (deliveries_headsChildless cx (wfCheck3_sound cx.blocks hwf) hknown d cs {} h (docInv_empty cx.blocks)
+      (headsChildless_empty cx.blocks)) k x
 
 /-- a fork and its merge commit, as a causal history: 1, then 2 and 3 on top of 1, then 4 on top of both -/
 def diamond : List Block :=
